@@ -297,6 +297,9 @@ def _store_array(
         # treat a region as an offset within the target store
         shape = target.shape
         chunks = target.chunks
+        # tasks are enumerated over the target's blocks and read the corresponding
+        # source block, so the source must have the target's chunking (no-op if it has)
+        source = source.rechunk(chunks)
         for i, (sl, cs) in enumerate(zip(region, chunks)):
             if (sl.start is not None and sl.start % cs != 0) or (
                 sl.stop is not None and sl.stop % cs != 0 and sl.stop != shape[i]
